@@ -161,9 +161,22 @@ func c04Predicate(c *Ctx, ge *GuardEngine, ctors map[string]string) {
 	}
 	atoms := ge.ReturnAtoms(fn, 0)
 	leaf := "{consensus.elementLeaf}"
-	wantS := "phi(({consensus.ElementAccumulator}.Trees[len(" + leaf + ".StateElement.MerkleProof)] == call consensus.proofRoot(" + leaf + ".StateElement.MerkleProof, call (consensus.elementLeaf).hash(" + leaf + "), " + leaf + ".StateElement.LeafIndex))|const:false)"
+	wantS := "({consensus.ElementAccumulator}.Trees[len(" + leaf + ".StateElement.MerkleProof)] == call consensus.proofRoot(" + leaf + ".StateElement.MerkleProof, call (consensus.elementLeaf).hash(" + leaf + "), " + leaf + ".StateElement.LeafIndex))"
 	want := mustRe(pat(wantS))
-	ok := len(atoms) == 1 && (want.MatchString(atoms[0]) || want.MatchString(ge.pv.ExpandAll(atoms[0], wantS)))
+	// every returned value is the root comparison or false (one return or several, any nesting of phis)
+	ok, eqs := len(atoms) > 0, 0
+	for _, a := range atoms {
+		for _, alt := range splitPhi(a) {
+			switch {
+			case alt == "const:false":
+			case want.MatchString(alt) || want.MatchString(ge.pv.ExpandAll(alt, wantS)):
+				eqs++
+			default:
+				ok = false
+			}
+		}
+	}
+	ok = ok && eqs > 0
 	c.Check(ok, "membership-predicate", "root-equality", c.P.Pos(fn.Pos()), ifElse(ok, "true only if Trees[len(proof)] == proofRoot(leaf)", "containsLeaf returns "+joinShort(atoms)+" — not 'stored root at height len(proof) equals the proof root, else false'"))
 	gs := ge.Guards(fn, nil, nil, nil, 0, map[*ssa.Function]int{})
 	r := req("tree-exists", "", "call (consensus.ElementAccumulator).%ID%({consensus.ElementAccumulator}, len({consensus.elementLeaf}.StateElement.MerkleProof))", opF, "", "a tree must exist at the proof's height (otherwise a stale root slot could match)")
